@@ -29,6 +29,10 @@ fn region(a: u16) -> u64 {
     }
 }
 
+fn rng_objects(r: &mut Rng) -> u64 {
+    r.pick(&[1u64, 4, 12, 40])
+}
+
 impl Scenario for BusCrash {
     fn name(&self) -> &'static str {
         "bus_crash"
@@ -108,6 +112,10 @@ impl Scenario for BusCrash {
                 case.push("edge", &[rng.below(4) as i64, rng.below(3) as i64]);
             }
         }
+        // the devices catch up over guest-written OAM / VRAM / registers: a frame of LCD time with objects at the screen edges
+        if rng.chance(1, 3) {
+            case.push("clk", &[(0x80 | rng.byte()) as i64, rng.next() as i64 & 0x7fff_ffff]);
+        }
         // bank 0 ends with NOP; NOP; LD BC,d16 whose second operand byte would lie in the switchable bank
         case.blobs.insert(patch_key(0x3ffc), vec![0x00, 0x00, 0x01, 0x12]);
         // program for "blk" (SP and HL come from the registers): PUSH BC; POP DE; LD (0xFFFF),SP; LD (0x7FFF),SP; LD (0xBFFF),SP;
@@ -137,6 +145,7 @@ impl Scenario for BusCrash {
                 "sweep" => 7,
                 "irq" => 6,
                 "edge" => 6,
+                "clk" => 7,
                 _ => continue,
             };
             let r = std::panic::catch_unwind(std::panic::AssertUnwindSafe(|| match op.k {
@@ -191,6 +200,23 @@ impl Scenario for BusCrash {
                     }
                     m.set_run_state(crate::machine::RUN);
                 }
+                "clk" => {
+                    let mut r = Rng::new(op.arg(1) as u64);
+                    for e in 0..rng_objects(&mut r) {
+                        let y = r.pick(&[0u8, 1, 8, 15, 16, 17, 80, 152, 159, 160, 255]);
+                        let x = r.pick(&[0u8, 1, 7, 8, 9, 159, 160, 161, 166, 167, 168, 169, 255]);
+                        let base = 0xfe00 + 4 * ((e * 7) % 40) as u16;
+                        m.write(base, y);
+                        m.write(base + 1, x);
+                        m.write(base + 2, r.byte());
+                        m.write(base + 3, r.byte());
+                    }
+                    for reg in [0xff42u16, 0xff43, 0xff4a, 0xff4b, 0xff47, 0xff48, 0xff49] {
+                        m.write(reg, r.pick(&[0u8, 1, 7, 8, 143, 144, 159, 160, 166, 167, 255]));
+                    }
+                    m.write(0xff40, addr as u8 | 0x80);
+                    m.clock(2 * 70224);
+                }
                 "edge" => {
                     // NOP; NOP; first two bytes of a three-byte instruction at the very end of a region
                     let start: u16 = [0x3ffcu16, 0xcffc, 0xdffc, 0xfffb][(op.arg(0) & 3) as usize];
@@ -244,6 +270,7 @@ impl Scenario for BusCrash {
                 "rw" | "ww" if addr == 0xffff => "probe.word_access_at_ffff",
                 "blk" => "probe.stack_programs",
                 "irq" => "probe.dispatches_with_the_stack_on_registers",
+                "clk" => "probe.lcd_frames_over_guest_written_state",
                 "edge" => "probe.blocks_ending_in_front_of_a_cut_off_instruction",
                 "sweep" => "probe.full_address_space_sweeps",
                 _ => "accesses",
